@@ -191,6 +191,18 @@ PENDING_REASON = "static check for this property is specified in DESIGN.md §4 b
 ALL = ["C%02d" % i for i in range(1, 21)]
 
 
+def technique_text(pid, fallback):
+    """the technique sentence written from the code by the documentation pass (TECHNIQUES.json, see RULES.md), with the rule counts per kind of
+    deciding step (DESIGN.md 2b): T1 structural, T2 formula extraction, T3 finite evaluation of the parsed source on mock inputs (bounded)."""
+    try:
+        t = json.load(open(os.path.join(VERIF, "TECHNIQUES.json")))[pid]
+    except (OSError, KeyError, ValueError):
+        return "static analysis: " + fallback
+    return ("static analysis: %s [rule ids per kind of deciding step: T1 structural %d, T2 symbolic formula extraction %d, T3 finite evaluation of the "
+            "parsed source by an in-house interpreter on mock inputs %d (T3 decides its clause on the fixtures only; RULES.md lists every rule)]"
+            % (t["technique"].rstrip("."), t["T1"], t["T2"], t["T3"]))
+
+
 def main():
     checks = []
     for pid in ALL:
@@ -206,7 +218,7 @@ def main():
             "engine": "sa",
             "level_claimed": {"category": "other", "text": "repository-specific static analysis. " + text, "design_ref": ref},
             "level_note": note,
-            "technique": "static analysis: " + tech,
+            "technique": technique_text(pid, tech),
         })
     na = []
     for pid in ALL:
@@ -227,12 +239,18 @@ def main():
             "name": "sa",
             "path": "/verif/sa",
             "serves_properties": sorted(CLAIMED),
-            "kind_free_text": "custom static analyser for USEPA/WNTR: Python ast + hand-built CFG + AST-to-sympy formula extraction "
-                              "(normal forms only, no solver, no execution of repository code); C++ sources read by a small tokenizer",
+            "kind_free_text": "custom static analyser for USEPA/WNTR. Never imports, compiles or executes repository code under CPython. Three kinds of "
+                              "deciding step (DESIGN.md 2b, per rule in RULES.md): T1 structural facts (hand-built CFG: dominance, must-pass, reachability; "
+                              "def-use; call graph with write sets; table agreement); T2 path-enumerating symbolic execution of small functions to sympy "
+                              "normal forms compared with the documented law (no solver); T3 interpretation of the parsed source by an in-house tree-walking "
+                              "interpreter (sa/concrete.py, sa/cint.py for one C++ file, evaluators local to rule modules) on finite mock inputs - bounded to "
+                              "those fixtures, used for finite tables and for shape-independent recognition. A shape normaliser (sa/normalize.py) inlines "
+                              "helpers and constants that are not anchorable names before any rule sees a module.",
         }],
         "checks": checks,
         "not_applicable": na,
-        "notes": "All checks are static (family: static analysis). exit 0 held / 1 VIOLATION / 2 ANALYSIS-ERROR. "
+        "notes": "All checks analyse the source only (family: static analysis; the T3 rules interpret the parsed source on mock inputs with an in-house "
+                 "interpreter and are bounded to their fixtures - see DESIGN.md 2b). exit 0 held / 1 VIOLATION / 2 ANALYSIS-ERROR. "
                  "Known findings: /verif/known_findings.json. Root of the analysed tree can be overridden with VERIF_REPO (self-test only).",
     }
     with open(os.path.join(VERIF, "MANIFEST.json"), "w") as f:
